@@ -866,3 +866,61 @@ def replay(module, path):
         return 1
     log('no violation on this tree')
     return 0
+
+
+# --------------------------------------------------------------------------------------------
+# arc geometry (SVG implementation notes F.6.5), floats
+
+import math
+
+
+def arc_center(x1, y1, r, large, sweep, x2, y2):
+    """centre and the (possibly enlarged) radius of the circular arc of an svg path"""
+    x1, y1, r, x2, y2 = map(float, (x1, y1, r, x2, y2))
+    dx = (x1 - x2) / 2
+    dy = (y1 - y2) / 2
+    d2 = dx * dx + dy * dy
+    if d2 == 0 or r == 0:
+        return (x1, y1), r
+    rr = r
+    lam = d2 / (rr * rr)
+    if lam > 1:
+        rr = rr * math.sqrt(lam)
+    num_ = max(0.0, rr ** 4 - rr * rr * dy * dy - rr * rr * dx * dx)
+    den = rr * rr * dy * dy + rr * rr * dx * dx
+    co = math.sqrt(num_ / den)
+    if bool(int(large)) == bool(int(sweep)):
+        co = -co
+    cxp = co * dy
+    cyp = -co * dx
+    return (cxp + (x1 + x2) / 2, cyp + (y1 + y2) / 2), rr
+
+
+def arc_bbox(x1, y1, r, large, sweep, x2, y2):
+    (cx, cy), rr = arc_center(x1, y1, r, large, sweep, x2, y2)
+    x1, y1, x2, y2 = map(float, (x1, y1, x2, y2))
+    if rr == 0:
+        return (min(x1, x2), min(y1, y2), max(x1, x2), max(y1, y2))
+    a1 = math.atan2(y1 - cy, x1 - cx)
+    a2 = math.atan2(y2 - cy, x2 - cx)
+    da = a2 - a1
+    sweep = bool(int(sweep))
+    if sweep and da < 0:
+        da += 2 * math.pi
+    if not sweep and da > 0:
+        da -= 2 * math.pi
+    xs = [x1, x2]
+    ys = [y1, y2]
+    for k in range(-4, 5):
+        ang = k * math.pi / 2
+        t = ang - a1
+        if da >= 0:
+            t = t % (2 * math.pi)
+            inside = t <= da
+        else:
+            t = (-t) % (2 * math.pi)
+            inside = t <= -da
+        if inside:
+            xs.append(cx + rr * math.cos(ang))
+            ys.append(cy + rr * math.sin(ang))
+    return (min(xs), min(ys), max(xs), max(ys))
